@@ -38,6 +38,9 @@ def run(ctx: Context) -> None:
     ctx.rule(r1_write_plan, pl)
     ctx.rule(r2_sqlite)
     ctx.rule(r3_loud_load, pl)
+    # a table extended in place is half old, half new after a crash: every table is written whole (append-mode rule of C04)
+    from . import c04 as _c04
+    ctx.rule(_c04.r4b_append_modes, pl)
 
 
 def _cross_file_checks(ctx: Context, pl: Plumbing) -> list[str]:
